@@ -67,6 +67,10 @@ CHECKS = {
  'C14': dict(cat='model_checking', technique='explicit-state exploration of wrapper-call histories on the real objects, exhaustive enumeration of file-system interleavings of concurrent wrapper runs under an own baton-passing scheduler (iterative preemption bounding), and an exhaustive grid of process configurations (hash seed x cwd x locale) with an open() audit',
              text='(1) one subprocess per (PYTHONHASHSEED 0..7 (0..63+random) x 3 working directories x 6 locale/encoding environments) for ASCII and non-ASCII inputs: every output digest of both generators over a 7-module corpus must be identical, and an audit hook shows writes only to requested outputs and reads only of inputs/templates; (2) BFS over all histories of <=2 (3) calls over {reused PybindWrapper, fresh PybindWrapper, fresh MatlabWrapper} x corpus: the last output equals that of a fresh wrapper; (3) 2-3 wrapper runs writing different targets into one directory, executed under our scheduler with scheduling points at every open/write/close/mkdir/makedirs/isdir, all interleavings within a preemption bound (2 / 1 quick, unbounded / 2-3 thorough): no run fails, the directory equals the union of the serial results; failing schedules are replayed to confirm determinism.',
              note='Scheduling points are file-system calls (generation between them is atomic); installed locales only; reuse of one wrapper object exercised for PybindWrapper only.', ref='2/C14'),
+
+ 'C18': dict(cat='model_checking', technique='exhaustive value enumeration and explicit-state exploration of all handle operation sequences up to a depth bound, executed against the real matlab.h compiled (ASan/UBSan) on a mock MEX API',
+             text='The real matlab.h is compiled against a mock MEX API: every bool, every char and unsigned char, every int in [-65536,65536] plus boundaries, boundary sets of size_t and double (bitwise), every string of length <=3 (4) over {a, space, newline, quote, 0xFF, NUL}, Vector lengths 0..4 and Matrix shapes 0..3x0..3 (shape and column-major positions), Points and enums must round-trip; every scalar unwrap on non-scalar shapes and every Vector/Matrix/Point/string unwrap on non-double / non-char classes or wrong column counts must raise; all 111110 (1.1M) sequences of <=5 (6) handle operations (wrap virtual/non-virtual, drop owner, delete handle, unwrap_shared_ptr, unwrap_ptr) on 2 objects keep: a handle designates its object, an object lives exactly as long as a handle or owner exists, nothing is alive after tear-down; no sanitizer report.',
+             note='Mock MEX API stands for MATLAB; little-endian LP64; the MATLAB-side constructor is hand-written in the driver.', ref='2/C18'),
 }
 NOT_YET = 'check not built yet in this session (see DESIGN.md for the planned exhaustive exploration)'
 
